@@ -17,7 +17,13 @@
 //	(c) with ENOSPC / EIO injected into the k-th open / write / fsync /
 //	    fchmod / close / rename of a save (helper re-run under strace -e
 //	    inject), (a) and (b) still hold, the destination stays complete, and a
-//	    save that did not replace the file reports its failure.
+//	    save that did not replace the file reports its failure,
+//	(d) a store whose previous version lives under another path (the legacy
+//	    <workdir>/leases.db before the migration) is judged as the pair of
+//	    files (legacy.go): in every view of (a)-(c) the destination is a
+//	    complete new version or the legacy file is still there, complete, and
+//	    the next start from such a state loads what the undisturbed migration
+//	    loads.
 package c14
 
 import (
@@ -586,6 +592,14 @@ type checker struct {
 	candCache *[]version
 	// ovRenames counts the renames onto the destination during the overlap.
 	ovRenames int
+	// pred is the file that holds the previous version of the store while the
+	// destination does not exist yet (legacy.go); "" if there is none.
+	pred       string
+	predData   []byte
+	memoPair   *[3]int
+	secondSeen [2]bool
+	secondN    int
+	migSummary string
 }
 
 // logf writes to the event log unless the run is in a phase whose details
@@ -942,7 +956,8 @@ func (ck *checker) boundary(at int) error {
 		}
 		ck.memoCrash[id] = memo
 	}
-	return nil
+	// The store as the pair (destination, legacy file).
+	return ck.pairBoundary(at, absent)
 }
 
 var injectableCalls = map[string]bool{"openat": true, "write": true, "pwrite64": true, "fsync": true, "fdatasync": true,
@@ -1152,6 +1167,9 @@ func (ck *checker) saveEnd() error {
 	if ck.prev.absent {
 		ck.c.Probe("dest_absent_after_save")
 	}
+	if err := ck.pairSaveEnd(k, absent2, data2); err != nil {
+		return err
+	}
 	ck.c.Step()
 	return nil
 }
@@ -1253,7 +1271,13 @@ func run(t *testing.T, scAny any, c *kernel.Ctx) error {
 	}
 	versions := append([]version{v0}, r.after...)
 	var candCache []version
-	ck := &checker{sc: sc, c: c, r: r, dest: DestPath(sc.Kind, r.work), versions: versions, baseline: true, label: "base", candCache: &candCache}
+	var predData []byte
+	if p := PredecessorPath(sc.Kind, sc.Init, r.work); p != "" {
+		rel, _ := filepath.Rel(r.work, p)
+		predData = init[rel]
+	}
+	ck := &checker{sc: sc, c: c, r: r, dest: DestPath(sc.Kind, r.work), versions: versions, baseline: true, label: "base", candCache: &candCache,
+		pred: PredecessorPath(sc.Kind, sc.Init, r.work), predData: predData}
 	if err = ck.replay(init); err != nil {
 		return err
 	}
@@ -1277,7 +1301,8 @@ func run(t *testing.T, scAny any, c *kernel.Ctx) error {
 				return fmt.Errorf("harness: repetition %d of the overlapping case failed: exit=%d stderr=%q", rep, rr.exitCode, rr.stderr)
 			}
 			vr := append([]version{v0}, rr.after...)
-			ckr := &checker{sc: sc, c: c, r: rr, dest: DestPath(sc.Kind, rr.work), versions: vr, label: "base", mute: true, candCache: &candCache}
+			ckr := &checker{sc: sc, c: c, r: rr, dest: DestPath(sc.Kind, rr.work), versions: vr, label: "base", mute: true, candCache: &candCache,
+				pred: PredecessorPath(sc.Kind, sc.Init, rr.work), predData: predData}
 			err = ckr.replay(init)
 			if err == nil {
 				err = ckr.finalCompare()
@@ -1380,6 +1405,7 @@ func run(t *testing.T, scAny any, c *kernel.Ctx) error {
 			vi[k+1] = ri.after[k]
 		}
 		cki := &checker{sc: sc, c: c, r: ri, dest: DestPath(sc.Kind, ri.work), versions: vi, injected: inj,
+			pred: PredecessorPath(sc.Kind, sc.Init, ri.work), predData: predData,
 			label: fmt.Sprintf("inj[%s#%d:%s]", p.call, p.nth, p.errno)}
 		c.Eventf("inject %s into save %d: %s", p.errno, p.save+1, p.desc)
 		err = cki.replay(init)
@@ -1528,5 +1554,6 @@ var Prop = &kernel.Property{
 		"inject_on_open", "inject_on_write", "inject_on_fsync", "inject_on_fchmod", "inject_on_close", "inject_on_rename",
 		"fault_dest_stays_old_failure_reported", "fault_dest_new_failure_reported", "fault_tolerated_save_succeeded",
 		"dest_absent_after_save", "overlapping_saves", "overlap_two_renames_onto_dest",
+		"legacy_pair_checked", "second_start_from_legacy", "migration_failed_legacy_kept",
 	},
 }
